@@ -17,6 +17,7 @@ package pgo
 //@   ensures [C10,C11] the-import-guards-are-the-imports-of-the-text-as-the-go-parser-reads-it: err == nil ==> file.Imports == parsedImports
 //@   ensures [C10] the-package-guard-is-the-package-clause-unless-it-was-supplied-by-the-augmentation: err == nil ==> file.Package == "" || file.Package == parsedPackage
 //@   ensures [C01,C10] a-package-clause-written-in-the-patch-is-always-the-guard: err == nil ==> file.Package == ite(len(ret("pgo/augment.Augment", 0, 1)) > 0 && ret("pgo/augment.Augment", 0, 1)[0].typ == dyn("*github.com/uber-go/gopatch/internal/pgo/augment.FakePackage"), "", parsedPackage)
+//@   at call pgo.augmentAST assert [C01,C06] the-pattern-is-the-declaration-the-body-or-the-expression-as-written: arg1 == ret("go/parser.ParseFile", 0, 0).Decls[0] || (ret("go/parser.ParseFile", 0, 0).Decls[0].typ == dyn("*go/ast.FuncDecl") && ret("go/parser.ParseFile", 0, 0).Decls[0].val != nil && (arg1 == boxed(as("*go/ast.FuncDecl", ret("go/parser.ParseFile", 0, 0).Decls[0].val).Body) || (as("*go/ast.FuncDecl", ret("go/parser.ParseFile", 0, 0).Decls[0].val).Body != nil && len(as("*go/ast.FuncDecl", ret("go/parser.ParseFile", 0, 0).Decls[0].val).Body.List) == 1 && as("*go/ast.FuncDecl", ret("go/parser.ParseFile", 0, 0).Decls[0].val).Body.List[0].typ == dyn("*go/ast.ExprStmt") && arg1 == as("*go/ast.ExprStmt", as("*go/ast.FuncDecl", ret("go/parser.ParseFile", 0, 0).Decls[0].val).Body.List[0].val).X)))
 //@   at call pgo.augmentAST assert [C08] a-block-handed-on-has-statements: arg1.typ == dyn("*go/ast.BlockStmt") ==> arg1.val != nil && len(as("*go/ast.BlockStmt", arg1.val).List) > 0
 //@   ensures [C08] a-side-that-is-a-list-of-statements-has-statements: err == nil && file.Node.typ == dyn("*github.com/uber-go/gopatch/internal/pgo.StmtList") ==> file.Node.val != nil && len(as("*github.com/uber-go/gopatch/internal/pgo.StmtList", file.Node.val).List) > 0
 //@   ensures [C17] pattern-comments-are-the-comments-of-the-text: err == nil ==> file.Comments == parsedComments
